@@ -2,7 +2,10 @@
 
 harness `sqv c13`: (1) static: writes coq/gen/Keys_<d>.v (cache keys of every node that can be an option of
 longest_match, by behaviour class); (2) direct observation: parse trees with cache/pruning on vs off, repeated,
-fresh dialect, threads sharing one dialect; (3) correspondence: recorded longest_match calls replayed on the model.
+fresh dialect, threads sharing one dialect; every fixture under every other dialect (cache off, prune off); big
+generated inputs (> 2^16 tokens / memo locations) and slice-length straddles (2^8, 2^16) with the cache on vs off;
+(3) correspondence: recorded longest_match calls replayed on the model; (4) monitors: cache hits vs recomputation,
+location keys vs (token, slice length).
 post: the 13 Keys_<d>.v obligations are compiled by coqc."""
 import os
 
@@ -46,6 +49,10 @@ def _post(ctx):
         lm_calls_recorded=c.get("lm_calls_recorded", 0),
         cache_hits_audited=c.get("cache_hits_audited", 0),
         cache_hits_differing_from_recomputation=c.get("cache_hits_differing_from_recomputation", 0),
+        location_keys_audited=c.get("location_keys_audited", 0),
+        big_inputs=[r["v"] for r in recs if r.get("t") == "stat" and isinstance(r.get("v"), dict) and "big_input" in r["v"]],
+        big_inputs_reaching_2_16={k: v for k, v in c.items() if k.startswith("big_inputs_with_")},
+        slice_length_sites={k: v for k, v in c.items() if "slice_length_sites" in k},
         generated_key_theorems_closed=sum(out.count("Closed under the global context") for _, (ok, out) in res.items()),
     )
 
@@ -64,14 +71,23 @@ CFG = dict(
                "context determinism), H_probe and H_simple_sound. Key injectivity is discharged statically per dialect "
                "(keys_injective_<d>, vm_compute over all possible options); the cache invariant is audited at run time on every "
                "cache hit of sampled parses; H_simple_sound and H_ctx are not provable from the grammar data alone and are "
-               "covered by the direct on/off comparison of parse trees.",
+               "covered by the direct on/off comparison of parse trees. The location key is an input of the model: that it identifies "
+               "(token, slice length) is monitored on every longest_match call of the audited parses (H_loc, blocking).",
     level_note="Conditional theorem: H_ctx (the cache key omits the active terminators) is known not to hold in general and is "
                "observed only through the end-to-end comparison (13 dialects x corpus/cross-dialect/corrupted inputs x "
                "{cache off, prune off, both off, repeat, fresh dialect, 8 threads sharing a dialect}); the loop model is tied to "
                "the code by replaying recorded calls. Behaviour classes for the key check use the derived Debug rendering.",
     rule="inputs: every dialect fixture (<= 2.5 kB quick / 6 kB thorough) under its own dialect, under 1 (quick) / 12 (thorough) "
          "other dialects, rule-fixture snippets under a random dialect, token-level corruptions (delete/duplicate/swap/insert "
-         "keyword/truncate/split), hand-written stress inputs; each parsed 6 ways and compared (direct observations); "
+         "keyword/truncate/split), hand-written stress inputs, slice-length straddles at 255/256/257 tokens; each parsed 6 ways "
+         "and compared (direct observations); every fixture (<= 6 kB quick / 20 kB thorough) under each of the 12 other dialects "
+         "parsed 3 ways (baseline, cache off, prune off); big inputs parsed 2 ways (baseline, cache off), each parse on its own "
+         "thread beside the worker pool: 6 generated shapes (many statements, VALUES list, select list, nested statements, IN list, "
+         "VALUES in a scalar sub-query) of 66k-141k tokens, two of them beyond 2^16 memo locations (thorough: + every shape at "
+         "exactly 65535/65536/65537/131072 tokens and at 200k tokens), and slice-length straddles at 65536 tokens: for every "
+         "place of an explored input where one matcher at one token answers differently on two slice lengths (found with the "
+         "longest_match recorder on the unchanged input), the input with block comments inserted so that the two slices are "
+         "exactly 2^8 (+-1) / 2^16 tokens apart; "
          "correspondence cases = recorded longest_match calls (3 switch settings) of every 12th (quick) / 6th (thorough) input; "
          "non-trivial input = baseline parse produced a tree and the input has >= 4 words; non-trivial call = >= 2 options and "
          "(a cache hit, a pruned option or a terminator probe); distinct = distinct (args, expected) of calls + distinct non-trivial inputs",
@@ -79,7 +95,9 @@ CFG = dict(
         "H_mfn: the result of matching an option at a position depends only on (loc_key, cache_key) and nested calls keep the "
         "cache consistent (key part discharged statically on K; context part observed end to end only)",
         "H_simple_sound: an option whose simple() hint excludes the next code token cannot match (observed end to end: prune-off vs prune-on trees)",
+        "H_loc: a location key identifies (token raw, working location, token type, slice length) within one parse (monitored, "
+        "blocking: every longest_match call of the audited parses, including the big inputs beyond 2^16 locations)",
         "a parse that aborts in Dialect::ref (C14 known findings) has no tree; on/off differences where one side is such an abort are counted, not reported",
     ],
-    trusted_extra=["cfg(sqruff_verif) switches in context.rs/match_algorithms.rs and the longest_match recorder (repo commits verif-hook: ...)"],
+    trusted_extra=["cfg(sqruff_verif) switches in context.rs/match_algorithms.rs and the longest_match recorder, cache-hit audit and location-key audit (repo commits verif-hook: ...)"],
 )
